@@ -955,6 +955,37 @@ fn handmade_para(rng: &mut Rng) -> ParaCase {
     ParaCase { orig, params, widths, indents, hyph: 0, hfont: 0, words: None }
 }
 
+/// Whether the sums of |width|, |stretch| and |shrink| (per order) over the whole list, the skips and
+/// the discretionary material stay below TeX's max_dimen.
+fn totals_in_range(c: &ParaCase) -> bool {
+    let mut w: i64 = 0;
+    let mut st = [0i64; 4];
+    let mut sh = [0i64; 4];
+    let mut add_glue = |g: &common::Glue, w: &mut i64| {
+        *w += (g.width.0 as i64).abs();
+        st[order_num(g.stretch_order) as usize] += (g.stretch.0 as i64).abs();
+        sh[order_num(g.shrink_order) as usize] += (g.shrink.0 as i64).abs();
+    };
+    for g in [&c.params.left_skip, &c.params.right_skip, &c.params.par_fill_skip] {
+        // the skips are added once per line; a paragraph has fewer lines than nodes
+        for _ in 0..c.orig.len().max(1) {
+            add_glue(g, &mut w);
+        }
+    }
+    for e in &c.orig {
+        match e {
+            ds::Horizontal::Glue(g) => add_glue(&g.value, &mut w),
+            ds::Horizontal::Kern(k) => w += (k.width.0 as i64).abs(),
+            ds::Horizontal::HBox(b) => w += (b.width.0 as i64).abs(),
+            ds::Horizontal::VBox(b) => w += (b.width.0 as i64).abs(),
+            ds::Horizontal::Rule(r) => w += (r.width.0 as i64).abs(),
+            _ => w += 1 << 20, // characters, ligatures, discretionary material: at most 16pt each here
+        }
+    }
+    let max = 1i64 << 30;
+    w < max && st.iter().all(|x| *x < max) && sh.iter().all(|x| *x < max)
+}
+
 fn paras(args: &Args) -> i32 {
     quiet_panics();
     let fonts = Fonts::new();
@@ -973,6 +1004,15 @@ fn paras(args: &Args) -> i32 {
         } else {
             handmade_para(&mut rng)
         };
+        // TeX adds the widths, stretch and shrink of a paragraph in 32-bit integers without a check
+        // (TeX.2021.104: "TeX does not check for overflow when dimensions are added"): a paragraph
+        // whose totals leave the range of a dimension (< 2^30 sp; reachable since a space factor of 1
+        // multiplies the shrink of \xspaceskip by 1000) has no defined meaning and is not in the
+        // quantifier.  Counted, not run.
+        if !totals_in_range(&c) {
+            st.bump("skipped_totals_beyond_max_dimen", 1);
+            continue;
+        }
         let ev = run_para(&fonts, &c);
         note_para(&mut st, &ev);
         st.bump(if c.words.is_some() { "from_text" } else { "hand_built" }, 1);
